@@ -918,13 +918,14 @@ Qed.
 
 (* `in` on a range container / the assigned value of a range container field *)
 Theorem range_eq_expr_sem fd e : fd_cont fd = CRange -> e_op e = OpEQ ->
-  wf_val (e_val e) -> modelled_num (e_val e) -> ints_fit (e_val e) -> nil_like (e_val e) = false ->
+  wf_val (e_val e) -> modelled_num (e_val e) -> ints_fit (e_val e) ->
   match expr_sem fd e with
   | Some s => exists zs, s = ENums zs /\ parse_integers true (e_val e) = POk zs
   | None => parse_integers true (e_val e) = PErr
   end.
 Proof.
-  intros Hc Ho Hw Hm Hi Hn. rewrite (parse_integers_ans _ Hw Hm Hi), Hn. unfold expr_sem. rewrite Hc, Ho.
+  intros Hc Ho Hw Hm Hi. rewrite (parse_integers_ans _ Hw Hm Hi). unfold expr_sem. rewrite Hc, Ho.
+  destruct (nil_like (e_val e)); [exists []; auto|].
   destruct (ints_of (e_val e)) as [zs|]; cbn [option_map ans]; [exists zs; auto|reflexivity].
 Qed.
 Theorem range_assign_sem fd v : fd_cont fd = CRange -> wf_val v -> modelled_num v -> ints_fit v ->
